@@ -12,7 +12,7 @@ RULE = ("flavour A: reachable states of the eight dataset algorithms under a stu
 ASSUMPTIONS = [
     "stub flavour: successor depends only on (S,P,U,round,frozen regions,total cost) and the event, so merging on that tuple is exact",
     "real-model flavour is shallow (observation menu of 3 values, depth <= 2) plus one seeded noisy continuation per configuration",
-    "VOGP_AD is exercised by the C18 check (adaptive design space); DecoupledGP's Thompson-sampling acquisition is random and only its data flow is checked",
+    "VOGP_AD is exercised by the C18 check (adaptive design space); DecoupledGP (batch 1): the Thompson-entropy value table is recomputed with the real acquisition on a pre-step model copy after restoring the torch generator state, and the requested pair must maximise it; larger batches: data flow only",
 ]
 
 
